@@ -7,7 +7,10 @@
 import json, os, subprocess, sys, re, tempfile, shutil, hashlib
 from concurrent.futures import ThreadPoolExecutor
 V = os.path.dirname(os.path.dirname(os.path.abspath(__file__)))
-PROPS = ["C03", "C04", "C05", "C06", "C07", "C08", "C10", "C11", "C12", "C13", "C15", "C16", "C18", "C19"]
+PROPS = ["C03", "C04", "C05", "C06", "C07", "C08", "C10", "C11", "C12", "C13", "C14", "C15", "C16", "C17", "C18", "C19", "C20"]
+
+
+SUB = "seeded"
 
 
 def run(sid, prop):
@@ -15,7 +18,7 @@ def run(sid, prop):
     try:
         subprocess.run("git -C /repo archive HEAD | tar -x -C %s" % d, shell=True, check=True)
         subprocess.run(["git", "init", "-q"], cwd=d)
-        a = subprocess.run(["git", "apply", "--whitespace=nowarn", os.path.join(V, "seeded", sid, "patch.diff")], cwd=d, capture_output=True, text=True)
+        a = subprocess.run(["git", "apply", "--whitespace=nowarn", os.path.join(V, SUB, sid, "patch.diff")], cwd=d, capture_output=True, text=True)
         if a.returncode != 0: return {"seed": sid, "check": prop, "error": "patch does not apply: " + a.stderr[-200:]}
         env = dict(os.environ, VERIF_REPO=d, VERIF_EVIDENCE_DIR=os.path.join(d, "ev"), VERIF_REPLAY_DIR=os.path.join(d, "rp"))
         c = subprocess.run([os.path.join(V, "check"), prop, "--tier", "quick"], cwd=V, env=env, capture_output=True, text=True)
@@ -35,15 +38,18 @@ def run(sid, prop):
 
 
 def main():
+    global SUB
     args = sys.argv[1:]
+    if "--refactors" in args: SUB = "refactors"      # behaviour-preserving changes: every check must stay quiet (exit 0, or 2 = undecided; never 1)
     allp = "--all" in args
     jobs = int(args[args.index("--jobs") + 1]) if "--jobs" in args else 4
-    ids = [a for a in args if re.match(r"C\d\d-[a-z]$", a)] or sorted(x for x in os.listdir(os.path.join(V, "seeded")) if re.match(r"C\d\d-[a-z]$", x))
+    pat = r"RF\d-r\d$" if SUB == "refactors" else r"C\d\d-[a-z]$"
+    ids = [a for a in args if re.match(pat, a)] or sorted(x for x in os.listdir(os.path.join(V, SUB)) if re.match(pat, x))
     work = []
     for sid in ids:
         own = sid.split("-")[0]
-        for p in (PROPS if allp else [own]): work.append((sid, p))
-    path = os.path.join(V, "seeded", "MATRIX.json")
+        for p in (PROPS if (allp or SUB == "refactors") else [own]): work.append((sid, p))
+    path = os.path.join(V, SUB, "MATRIX.json")
     old = json.load(open(path)) if os.path.exists(path) else {"runs": []}
     keep = [r for r in old["runs"] if (r["seed"], r["check"]) not in set(work)]
     with ThreadPoolExecutor(jobs) as ex:
@@ -53,6 +59,10 @@ def main():
     head = subprocess.run(["git", "-C", "/repo", "rev-parse", "--short", "HEAD"], capture_output=True, text=True).stdout.strip()
     json.dump({"repo_head": head, "how": "tools/seedmatrix.py: patch applied to a scratch copy of /repo, `check <Cxx> --tier quick` run against it (VERIF_REPO), copy removed",
                "runs": allr}, open(path, "w"), indent=1)
+    if SUB == "refactors":
+        print("behaviour-preserving changes: %d runs, %d quiet (exit 0), %d undecided (exit 2), %d FALSE ALARMS (exit 1)" % (
+            len(allr), sum(r.get("exit") == 0 for r in allr), sum(r.get("exit") == 2 for r in allr), sum(r.get("exit") == 1 for r in allr)))
+        return
     own = [r for r in allr if r["check"] == r["seed"].split("-")[0]]
     print("own-property detection: %d/%d VIOLATION (exit 1), %d undecided (exit 2), %d missed (exit 0)" % (
         sum(r.get("exit") == 1 for r in own), len(own), sum(r.get("exit") == 2 for r in own), sum(r.get("exit") == 0 for r in own)))
